@@ -540,8 +540,8 @@ pub fn enumerate<F: Flavour>(which: Which, n: usize, max_edges: usize, st: &mut 
                     }
                     let te = if F::DIRECTED { t.edge_count_directed() } else { t.edge_count_undirected() };
                     if te <= max_edges && seen.insert(t.clone()) {
-                        if states < 4 {
-                            st.sample(|| json!({"enumerated": {"flavour": F::NAME, "state": &t, "witness_history": &case.ops}}));
+                        if case.ops.len() >= 3 {
+                            st.sample_kind("enumerated", 1, || json!({"enumerated": {"flavour": F::NAME, "state": &t, "witness_history": &case.ops}}));
                         }
                         queue.push_back((t, case.ops));
                     }
@@ -657,7 +657,9 @@ pub fn run(which: Which, ctx: &mut Ctx) {
                     st.nontrivial(case);
                 }
                 st.class(&format!("len.{}", match case.ops.len() { 0..=5 => "0-5", 6..=20 => "6-20", 21..=60 => "21-60", _ => "61+" }));
-                st.sample(|| json!({"history": case}));
+                if case.ops.len() >= 6 {
+                    st.sample_kind("history", 1, || json!({"history": case}));
+                }
                 run_all(case, which, &mut st, true, None)
             } else {
                 let mut scratch = Stats::new();
